@@ -334,8 +334,8 @@ class Machine:
                 return v.v
             if isinstance(v, Closure):
                 return v          # closure bodies read captures through `(*_1).k` or `_1.k` alike
-            if isinstance(v, (RStr, list)) or type(v).__name__ == 'RVec':
-                return v          # a slice / str value standing for the reference to it (models return these for `&[T]` items)
+            if v is not None and not isinstance(v, Lazy):
+                return v          # a value standing for the reference to it (iterator models yield items of `&Vec<T>` by value)
             raise Unsupported(f'deref of {v!r}')
         if k == 'field':
             if isinstance(v, Lazy):
@@ -425,6 +425,14 @@ class Machine:
         raise Unsupported(f'const {c}')
 
     def named_const(self, name):
+        q = re.fullmatch(r'(?:(?:std|core)::(?:\w+::)*)?([ui])(8|16|32|64|128|size)::(MIN|MAX|BITS)', name.strip())
+        if q:
+            w = 64 if q.group(2) == 'size' else int(q.group(2))
+            if q.group(3) == 'BITS':
+                return w
+            if q.group(1) == 'u':
+                return 0 if q.group(3) == 'MIN' else (1 << w) - 1
+            return (1 << (w - 1)) if q.group(3) == 'MIN' else (1 << (w - 1)) - 1       # two's complement, kept modulo 2^w
         key = 'const ' + name
         cand = self.fns.get(key)
         if cand is None:
